@@ -131,7 +131,17 @@ func init() {
 		s := a[0].(*StrV)
 		for _, c := range s.b {
 			if !c.IsConst() {
-				panic(unsupported("strconv.ParseFloat of a symbolic string (outside the claim)"))
+				// environment stub: any float64, with no error, ErrRange or ErrSyntax (documented contract of ParseFloat)
+				e.used("strconv.ParseFloat(symbolic string) = arbitrary float64 with err in {nil, ErrRange, ErrSyntax}")
+				v := e.x.newHidden(Sort{SBV, 64})
+				k := e.x.newHidden(Sort{SBV, 8})
+				if e.decide(e.b.Eq(k, e.b.BVu(0, 8))) {
+					return Tuple{v, nilIface}
+				}
+				if e.decide(e.b.Eq(k, e.b.BVu(1, 8))) {
+					return Tuple{v, e.newNumError("ParseFloat", "<symbolic>", "ErrRange")}
+				}
+				return Tuple{e.b.BVu(0, 64), e.newNumError("ParseFloat", "<symbolic>", "ErrSyntax")}
 			}
 		}
 		bits := int(e.term(a[1]).ConstS())
